@@ -12,6 +12,7 @@ import Proofs.C03_Text
 import Proofs.C03_Bins
 import Proofs.C03_Scale
 import Proofs.C03_Mirror
+import Proofs.C03_Source
 
 set_option linter.unusedSimpArgs false
 set_option linter.unusedVariables false
@@ -356,6 +357,49 @@ theorem nbr_growth_as_modelled (init cu cv m d : Nat) :
   · simp only [Gen.nbrNewWidth] <;> omega
   · simp only [Gen.nbrCopyCols] <;> omega
   · simp only [Gen.nbrGrow] <;> omega
+
+/-- **src_defaults_valid**: the default storage sizes standing in the source (`nlist` in nlist.pyx, `NeighborList.build`
+    in NeighborList.py; regenerated on every run) are inside the quantifier of the property (`>= 1`): a call that leaves
+    them out is covered by `storage_refines`.  (A default `deltasize = 0` would make the first growth a no-op and the next
+    write land outside the array.) -/
+theorem src_defaults_valid :
+    1 ≤ Src.defInitialsize ∧ 1 ≤ Src.defDeltasize ∧ 1 ≤ Src.buildDefInitialsize ∧ 1 ≤ Src.buildDefDeltasize := by
+  decide
+
+/-- **nlistCall_complete** (end to end, every call form): whatever way the two storage sizes reach `nlist` — given by the
+    caller (`deltasize ≥ 1`), left out in `NeighborList(system=, cutoff=)` / `System.neighborlist(cutoff=)` (defaults of
+    `build`), left out in `nlist(system, cutoff)` (its own defaults) — for atoms inside the cell and `cutoff > 0` the
+    returned object has `[i]` = the specification (ascending, exactly the `j ≠ i` below the cutoff) and `coord[i]` = its
+    length; in particular two calls that differ only in how the sizes were given return the same lists. -/
+theorem nlistCall_complete (junk : Nat → Nat → Nat) (a b : SizeArg) (hb : ∀ n, b = .given n → 1 ≤ n) (S : Sys)
+    (cutoff : ℚ) (hc : 0 < cutoff) (hin : ∀ i, i < S.natoms → InsideCell S (S.posOf i)) (i : Nat) (hi : i < S.natoms) :
+    absRow ((nlistCall junk a b S cutoff).rows.getD i []) = nlistSpec S cutoff i ∧
+    coordOf ((nlistCall junk a b S cutoff).rows.getD i []) = (nlistSpec S cutoff i).length := by
+  have hd : 1 ≤ deltasizeOf b := by
+    cases b with
+    | given n => exact hb n rfl
+    | viaBuild => exact src_defaults_valid.2.2.2
+    | viaNlist => exact src_defaults_valid.2.1
+  exact nlistFull_complete junk (initialsizeOf a) (deltasizeOf b) hd S cutoff hc hin i hi
+
+theorem nlistCall_form_irrelevant (junk junk' : Nat → Nat → Nat) (a b a' b' : SizeArg) (hb : ∀ n, b = .given n → 1 ≤ n)
+    (hb' : ∀ n, b' = .given n → 1 ≤ n) (S : Sys) (cutoff : ℚ) (hc : 0 < cutoff)
+    (hin : ∀ i, i < S.natoms → InsideCell S (S.posOf i)) (i : Nat) (hi : i < S.natoms) :
+    absRow ((nlistCall junk a b S cutoff).rows.getD i []) = absRow ((nlistCall junk' a' b' S cutoff).rows.getD i []) := by
+  rw [(nlistCall_complete junk a b hb S cutoff hc hin i hi).1, (nlistCall_complete junk' a' b' hb' S cutoff hc hin i hi).1]
+
+example : (∀ n, SizeArg.viaBuild = .given n → 1 ≤ n) ∧ (∀ n, SizeArg.given 3 = .given n → 1 ≤ n) ∧
+    absRows (nlistCall (fun _ _ => 7) .viaBuild .viaNlist exSys (3 / 2)).rows = [[1], [0]] ∧
+    absRows (nlistCall (fun _ _ => 9) (.given 1) (.given 3) exSys (3 / 2)).rows = [[1], [0]] := by
+  refine ⟨?_, ?_, by decide +kernel, by decide +kernel⟩
+  · intro n h; cases h
+  · intro n h; cases h; decide
+
+/-- **sweep_loops_as_modelled**: the compared pairs of one bin, written with the loop indices of the source
+    (`for u in range(len(shortlist)): for w, v in enumerate(range(u + 1, len(longlist)))`, `longlist` = `shortlist`
+    followed by the members of the stencil bins), are the `binPairs` the theorems are about. -/
+theorem sweep_loops_as_modelled (G : Grid) (es : List (Nat × Idx)) (b : Idx) :
+    binPairs G es b = pairLoops (members es b) (stencilMembers G es b) := (pairsOf_eq_loops _ _).symm
 
 /-! ### object level: no memory between calls -/
 
